@@ -73,6 +73,30 @@ def register(reg, P):
             tier = "quick" if (tn in quick_t and bn in quick_b) or (tn in ("grad", "jvp") and bn in own_rule) else "thorough"
             reg("A7", f"{tn}/{bn}", functools.partial(P, (lambda T, f: T(f))(T, f), specs), tier=tier)
 
+    # vmap over rank-2 EXAMPLES (batch 2 of (2, 3)): batching rules that re-index axes, pad `reps`,
+    # shift `axis`, ... are invisible on rank-1 examples
+    ex2 = {
+        "tile_short_reps": lambda x: jnp.tile(x, 2), "tile_tuple1": lambda x: jnp.tile(x, (3,)), "tile_full": lambda x: jnp.tile(x, (2, 1)),
+        "repeat_axis0": lambda x: jnp.repeat(x, 2, axis=0), "repeat_axis1": lambda x: jnp.repeat(x, 2, axis=1),
+        "softmax_axis0": lambda x: jax.nn.softmax(x, axis=0), "softmax_axis1": lambda x: jax.nn.softmax(x, axis=1),
+        "log_softmax_axis0": lambda x: jax.nn.log_softmax(x, axis=0), "log_softmax_axis1": lambda x: jax.nn.log_softmax(x, axis=1), "cumsum_axis0": lambda x: jnp.cumsum(x, axis=0), "cumsum_axis1": lambda x: jnp.cumsum(x, axis=1),
+        "sum_axis0": lambda x: jnp.sum(x, axis=0), "max_axis1_keep": lambda x: jnp.max(x, axis=1, keepdims=True), "argmax_axis0": lambda x: jnp.argmax(x, axis=0),
+        "sort_axis0": lambda x: jnp.sort(x, axis=0), "flip_axis0": lambda x: jnp.flip(x, axis=0), "roll_axis1": lambda x: jnp.roll(x, 1, axis=1),
+        "transpose": lambda x: jnp.transpose(x), "reshape_flat": lambda x: jnp.reshape(x, (-1,)), "reshape_32": lambda x: jnp.reshape(x, (3, 2)),
+        "concat_axis1": lambda x: jnp.concatenate([x, x * 2.0], axis=1), "stack_axis1": lambda x: jnp.stack([x, -x], axis=1), "expand_squeeze": lambda x: jnp.squeeze(jnp.expand_dims(x, 1), 1) * 2.0,
+        "take_axis1": lambda x: jnp.take(x, jnp.array([2, 0]), axis=1), "pad_2d": lambda x: jnp.pad(x, ((1, 0), (0, 2))), "where_row": lambda x: jnp.where(x > 0, x, x[:1] * 0.5),
+        "one_hot_axis0": lambda x: jax.nn.one_hot(jnp.argmax(x, axis=1), 3, axis=0), "one_hot_last": lambda x: jax.nn.one_hot(jnp.argmax(x, axis=1), 3),
+        "matmul_T": lambda x: x @ x.T, "einsum_ij_kj": lambda x: jnp.einsum("ij,kj->ik", x, x), "mean_axis1": lambda x: jnp.mean(x, axis=1), "prod_axis0": lambda x: jnp.prod(x, axis=0),
+        "clip_rowmax": lambda x: jnp.clip(x, -1.0, jnp.max(x)), "squeeze_none": lambda x: jnp.squeeze(x[:1]), "diag": lambda x: jnp.diagonal(x @ x.T), "split0": lambda x: jnp.split(x, 2, axis=0)[1],
+        "logsumexp_axis0": lambda x: jax.nn.logsumexp(x, axis=0), "var_axis1": lambda x: jnp.var(x, axis=1), "dyn_slice": lambda x: lax.dynamic_slice(x, (0, 1), (2, 2)), "select_n": lambda x: lax.select(x > 0, x, -x * 2.0),
+    }
+    ex2 = {k: late(v) for k, v in ex2.items()}
+    q2 = {"tile_short_reps", "tile_tuple1", "repeat_axis0", "softmax_axis0", "softmax_axis1", "log_softmax_axis0", "log_softmax_axis1", "cumsum_axis0", "sum_axis0", "sort_axis0", "transpose", "reshape_32", "concat_axis1", "stack_axis1", "take_axis1", "pad_2d", "one_hot_axis0", "one_hot_last", "roll_axis1", "flip_axis0", "argmax_axis0"}
+    for bn, f in ex2.items():
+        reg("A7", f"vmap2/{bn}", functools.partial(P, jax.vmap(f), [((2, 2, 3), F32)]), tier="quick" if bn in q2 else "thorough")
+        reg("A7", f"vmap2_axis1/{bn}", functools.partial(P, jax.vmap(f, in_axes=1), [((2, 2, 3), F32)]), tier="thorough")
+        reg("A7", f"vmap2_grad/{bn}", functools.partial(P, jax.vmap(jax.grad(lambda x, f=f: jnp.sum(f(x) * 1.0))), [((2, 2, 3), F32)]), tier="thorough")
+
     # mixed in_axes
     reg("A7", "vmap_in_axes_0_None/mul", functools.partial(P, jax.vmap(lambda x, y: x * y + 1.0, in_axes=(0, None)), [((2, 3), F32), ((3,), F32)]))
     reg("A7", "vmap_in_axes_None_0/where", functools.partial(P, jax.vmap(lambda x, y: jnp.where(x > y, x, y), in_axes=(None, 0)), [((3,), F32), ((2, 3), F32)]))
